@@ -26,9 +26,9 @@ type Config struct {
 	PCTDepth int
 	PCTLen   int // expected number of steps, for placing change points
 	// Hold
-	HoldTask  int // index of victim task
-	HoldYield int // victim is parked when it reaches this yield count (1-based)
-	HoldTask2 int // optional second victim (-1 none)
+	HoldTask   int // index of victim task
+	HoldYield  int // victim is parked when it reaches this yield count (1-based)
+	HoldTask2  int // optional second victim (-1 none)
 	HoldYield2 int
 	// Seq
 	Preempts int
@@ -68,14 +68,14 @@ type timer struct {
 }
 
 type Sched struct {
-	cfg     Config
-	tasks   []*task
-	cur     *task
-	epoch   uint64
-	steps   int
-	rng     uint64
-	dead    bool
-	Outcome string // "", "deadlock", "livelock"
+	cfg           Config
+	tasks         []*task
+	cur           *task
+	epoch         uint64
+	steps         int
+	rng           uint64
+	dead          bool
+	Outcome       string // "", "deadlock", "livelock"
 	OutcomeDetail string
 
 	trace     []int32 // task chosen at each decision point where >1 task was runnable
